@@ -49,4 +49,13 @@ manifest = {
 with open(os.path.join(V, "MANIFEST.json"), "w") as fp:
     json.dump(manifest, fp, indent=1)
     fp.write("\n")
-print("claimed:", sorted(claimed))
+# known_findings.json = concatenation of the per-property fragments known_findings.d/Cxx.json
+kf = {"findings": [], "fixed": []}
+for path in sorted(glob.glob(os.path.join(V, "known_findings.d", "C*.json"))):
+    frag = json.load(open(path))
+    kf["findings"] += frag.get("findings", [])
+    kf["fixed"] += frag.get("fixed", [])
+with open(os.path.join(V, "known_findings.json"), "w") as fp:
+    json.dump(kf, fp, indent=1)
+    fp.write("\n")
+print("claimed:", sorted(claimed), "open findings:", len(kf["findings"]), "fixed:", len(kf["fixed"]))
